@@ -497,4 +497,22 @@ theorem cpp_processtokens_keeps_valid_label (s : String) (hs : validLabel (.str 
       | _ => (procToks fuel rest).map (PTok.varid s :: ·) :=
   procToks_label s hs rest fuel hcc
 
+/-- a model with a variable and a constraint called `To`, a fraction, a 16-digit integer, default REAL bounds (`1e+30`) -/
+def exModelR8 : LCqm :=
+  ⟨[⟨.str "x", .integer, 0, 5⟩, ⟨.str "To", .binary, 0, 1⟩, ⟨.str "r", .real, -5/2, realMax⟩],
+   ⟨[(.str "x", -1/2), (.str "r", 9007199254740991)], [(.str "x", .str "To", 3/2)], 1⟩,
+   [⟨.str "To", ⟨[(.str "To", 1), (.str "x", 2)], [], 1/4⟩, .ge, 1, false⟩]⟩
+
+open LpCpp in
+/-- the hypotheses of `cpp_reader_tokenizes_every_dump_partial` are met by a model the writer accepts -/
+example : CppNumsOK exModelR8 ∧ ScopedOK exModelR8 ∧ (dumps exModelR8).toOption.isSome = true := by
+  refine ⟨⟨?_, ?_, ?_, ?_, ?_, ?_, ?_⟩, ⟨?_, ?_, ?_, ?_⟩, by decide +kernel⟩
+  all_goals simp only [exModelR8, List.mem_cons, List.mem_nil_iff, or_false, forall_eq_or_imp, forall_eq]
+  all_goals first
+    | exact numOK_of_dyadic _ 2 (by decide) (by decide +kernel) (by decide +kernel)
+    | (refine ⟨?_, ?_⟩ <;> exact numOK_of_dyadic _ 2 (by decide) (by decide +kernel) (by decide +kernel))
+    | (intro q hq; exact absurd hq id)
+    | (refine ⟨⟨?_, ?_⟩, ⟨?_, ?_⟩, ?_, ?_⟩ <;> exact numOK_of_dyadic _ 2 (by decide) (by decide +kernel) (by decide +kernel))
+    | simp
+
 end C12
